@@ -120,6 +120,7 @@ def run(ctx: Ctx):
                       why=f"{f.why} | taint chain: {' > '.join(c[:70] for c in f.chain)[:400]}",
                       construct=f"{f.fn.qualname}:{f.what}", witness={"chain": f.chain})
     ctx.attempt(sort_keys, ctx, h)
+    ctx.attempt(stateless_callbacks, ctx)
     ctx.attempt(exempt_listings, ctx)
     ctx.attempt(selection_ties, ctx)
     ctx.attempt(randomness, ctx)
@@ -198,6 +199,145 @@ def sort_keys(ctx: Ctx, h: HO):
                   why_bad="default ordering is not the Map key", construct=f"{qn}:default-key")
     if n < 4:
         ctx.soft_fail(f"sort-key rule matched {n} sites")
+
+
+_MUTATORS = {"append", "extend", "insert", "add", "update", "setdefault", "pop", "popitem", "remove", "discard", "clear", "appendleft", "sort", "reverse", "__setitem__"}
+
+
+def _param_mutated(repo, fn, pname: str, depth: int = 2, seen=None) -> Optional[ast.AST]:
+    """the first statement of `fn` (or of a package function it hands the parameter to, `depth` calls deep) that changes the object
+    bound to parameter `pname` in place: item / attribute store, del, augmented assignment through it, a mutating container method."""
+    seen = seen if seen is not None else set()
+    if (fn, pname) in seen:
+        return None
+    seen.add((fn, pname))
+    aliases = {pname}
+    for n in ast.walk(fn.node):
+        if isinstance(n, ast.Assign) and isinstance(n.value, ast.Name) and n.value.id in aliases:
+            aliases |= {t.id for t in n.targets if isinstance(t, ast.Name)}
+
+    def root(e):
+        while isinstance(e, (ast.Subscript, ast.Attribute)):
+            e = e.value
+        return e.id if isinstance(e, ast.Name) else None
+
+    for n in ast.walk(fn.node):
+        if isinstance(n, (ast.Assign, ast.AugAssign, ast.AnnAssign, ast.Delete)):
+            tg = n.targets if isinstance(n, (ast.Assign, ast.Delete)) else [n.target]
+            for t in tg:
+                if isinstance(t, (ast.Subscript, ast.Attribute)) and root(t) in aliases:
+                    return n
+        elif isinstance(n, ast.Call):
+            if isinstance(n.func, ast.Attribute) and n.func.attr in _MUTATORS and isinstance(n.func.value, ast.Name) and n.func.value.id in aliases:
+                return n
+            if depth > 0:
+                callee = repo.resolve_call(fn.module, n)
+                if callee is None and isinstance(n.func, ast.Name):
+                    callee = fn.module.funcs.get(n.func.id)
+                if callee is not None and not isinstance(callee.node, ast.Lambda):
+                    ps = callee.params
+                    for i, a in enumerate(n.args):
+                        if isinstance(a, ast.Name) and a.id in aliases and i < len(ps):
+                            r = _param_mutated(repo, callee, ps[i], depth - 1, seen)
+                            if r is not None:
+                                return n
+                    for k in n.keywords:
+                        if k.arg and isinstance(k.value, ast.Name) and k.value.id in aliases and k.arg in ps:
+                            r = _param_mutated(repo, callee, k.arg, depth - 1, seen)
+                            if r is not None:
+                                return n
+    return None
+
+
+def stateless_callbacks(ctx: Ctx):
+    """D2b: a filter / sort-key callable handed to one of the collection iterators is evaluated once per element in the collection's
+    own (hash) order -- `iterate_sim_coll` filters before it sorts. Its answer for one element must therefore not depend on the
+    elements evaluated before it: the callable changes no object that outlives one evaluation (a variable of the enclosing function,
+    a container captured from it, directly or through a package function that writes into the parameter it is given)."""
+    repo = ctx.repo
+    idx = index(repo)
+    n = 0
+    for fname in sorted(SORT_KEY_FUNCS | {"filter", "sorted", "min", "max"}):
+        for s in idx.calls(fname, refs=False):
+            if not in_pkg(s) or s.file.startswith(PKG + "/resources") or s.func is None:
+                continue
+            cands = [kw.value for kw in s.node.keywords if kw.arg in ("filter_function", "sort_key", "key")]
+            if fname == "filter" and s.node.args:
+                cands.append(s.node.args[0])
+            for v in cands:
+                body = None
+                if isinstance(v, ast.Lambda):
+                    body = v
+                elif isinstance(v, ast.Name):
+                    for d in ast.walk(s.func.node):
+                        if isinstance(d, (ast.FunctionDef, ast.AsyncFunctionDef)) and d.name == v.id and d is not s.func.node:
+                            body = d
+                            break
+                if body is None:
+                    continue
+                n += 1
+                a = body.args
+                own = {x.arg for x in a.posonlyargs + a.args + a.kwonlyargs}
+                if not isinstance(body, ast.Lambda):
+                    for x in ast.walk(body):
+                        if isinstance(x, ast.Name) and isinstance(x.ctx, ast.Store):
+                            own.add(x.id)
+                    nl = {nm for x in ast.walk(body) if isinstance(x, (ast.Nonlocal, ast.Global)) for nm in x.names}
+                    own -= nl
+                else:
+                    nl = set()
+                bad = None
+                for x in ast.walk(body):
+                    if isinstance(x, ast.Name) and isinstance(x.ctx, ast.Store) and x.id in nl:
+                        bad = (x, f"rebinds `{x.id}` of the enclosing scope")
+                    elif isinstance(x, (ast.Assign, ast.AugAssign, ast.Delete)):
+                        for t in (x.targets if isinstance(x, (ast.Assign, ast.Delete)) else [x.target]):
+                            r = t
+                            while isinstance(r, (ast.Subscript, ast.Attribute)):
+                                r = r.value
+                            if isinstance(t, (ast.Subscript, ast.Attribute)) and isinstance(r, ast.Name) and r.id not in own:
+                                bad = (x, f"writes into `{r.id}`, which it captures from the enclosing scope")
+                    elif isinstance(x, ast.Call):
+                        if isinstance(x.func, ast.Attribute) and x.func.attr in _MUTATORS and isinstance(x.func.value, ast.Name) and x.func.value.id not in own \
+                                and x.func.value.id not in ("log", "logger", "logging"):
+                            # a captured immutables.Map / tuple has no in-place `update`/`add`: only containers built in the enclosing function as dict/list/set displays count
+                            if _captured_mutable(s.func.node, x.func.value.id):
+                                bad = (x, f"calls `{x.func.value.id}.{x.func.attr}(...)` on a container it captures from the enclosing scope")
+                        callee = repo.resolve_call(s.func.module, x)
+                        if callee is not None and not isinstance(callee.node, ast.Lambda):
+                            ps = callee.params
+                            pairs = [(ps[i], a_) for i, a_ in enumerate(x.args) if i < len(ps)] + [(k.arg, k.value) for k in x.keywords if k.arg in ps]
+                            for pn, a_ in pairs:
+                                if isinstance(a_, ast.Name) and a_.id not in own and _captured_mutable(s.func.node, a_.id):
+                                    w = _param_mutated(repo, callee, pn)
+                                    if w is not None:
+                                        bad = (x, f"hands the captured container `{a_.id}` to {callee.qualname}, which writes into it ({callee.relpath}:{getattr(w, 'lineno', 0)})")
+                    if bad:
+                        break
+                label = v.id if isinstance(v, ast.Name) else "lambda"
+                ctx.check(bad is None, "D2", "HO.stateful-callback", f"{s.qual}: the callable `{label}` given to {fname} keeps nothing from one element to the next", s.func, s.node,
+                          why_bad=(f"`{label}` {bad[1]}: it is evaluated element by element in the collection's hash order (filter before sort), so what it answers for one "
+                                   f"element depends on which elements came before -- and that differs between processes") if bad else "",
+                          construct=f"{s.qual}:{fname}:stateful-callback:{label}")
+    ctx.extra["callbacks_checked_stateless"] = n
+    if n < 20:
+        ctx.soft_fail(f"HO.stateful-callback matched {n} callables (the pinned tree hands over more than 20 filter / key callables)")
+
+
+def _captured_mutable(fn_node: ast.AST, name: str) -> bool:
+    """`name` is bound in the enclosing function to a mutable container display / constructor (dict, list, set, defaultdict, ...)"""
+    for n in ast.walk(fn_node):
+        tg, val = None, None
+        if isinstance(n, ast.Assign):
+            tg, val = n.targets, n.value
+        elif isinstance(n, ast.AnnAssign) and n.value is not None:
+            tg, val = [n.target], n.value
+        if tg and any(isinstance(t, ast.Name) and t.id == name for t in tg):
+            if isinstance(val, (ast.Dict, ast.List, ast.Set, ast.ListComp, ast.DictComp, ast.SetComp)):
+                return True
+            if isinstance(val, ast.Call) and dotted(val.func) in ("dict", "list", "set", "defaultdict", "collections.defaultdict", "OrderedDict", "collections.OrderedDict", "Counter", "collections.Counter", "deque", "collections.deque", "bytearray"):
+                return True
+    return False
 
 
 def selection_ties(ctx: Ctx):
@@ -351,6 +491,7 @@ def selftest():
         V("uuid-as-key", "nrel/hive/state/vehicle_state/idle.py", "        return Idle(vehicle_id=vehicle_id, instance_id=uuid4())", "        return Idle(vehicle_id=str(uuid4()), instance_id=uuid4())", rule="HO.uuid"),
         V("aliased-draw", SSO, "        sorted_other_vehicles = tuple(sorted(other_vehicles, key=lambda v: v.id))", "        from random import shuffle as _sh\n        sorted_other_vehicles = tuple(sorted(other_vehicles, key=lambda v: v.id))\n        _sh(list(sorted_other_vehicles))", rule="HO.random"),
         V("listdir-order", "nrel/hive/initialization/load.py", "def load_config(", "def _inputs_in(d):\n    import os\n    return [os.path.join(d, f) for f in os.listdir(d)]\n\n\ndef load_config(", rule="HO.fs-order"),
+        V("stateful-filter", "nrel/hive/dispatcher/instruction_generator/charging_fleet_manager.py", "        def charge_candidate(v: Vehicle) -> bool:\n", "        _seen: list = []\n\n        def charge_candidate(v: Vehicle) -> bool:\n            _seen.append(v.id)\n", rule="HO.stateful-callback"),
         V("twin-listdir-sorted", "nrel/hive/initialization/load.py", "def load_config(", "def _inputs_in(d):\n    import os\n    return [os.path.join(d, f) for f in sorted(os.listdir(d))]\n\n\ndef load_config(", kind="twin"),
         V("twin-sorted-identity-key", STEP, "        for vid in sorted(i_stack.keys()):", "        for vid in sorted(i_stack.keys(), key=lambda k: k):", kind="twin"),
         V("twin-keyed-loop", "nrel/hive/model/vehicle/vehicle.py", "        energy_expended = {k: self.energy_expended[k] + delta_energy[k] for k in self.energy.keys()}", "        energy_expended = {}\n        for k in self.energy.keys():\n            energy_expended[k] = self.energy_expended[k] + delta_energy[k]", kind="twin"),
